@@ -1,11 +1,12 @@
 #!/bin/bash
 # Re-runs the quick check of every seeded change's property against a scratch copy of the repository with the change
 # applied (VERIF_REPO must point to a scratch worktree of /repo's HEAD; default: creates one under /tmp).
-# Prints one line per seed: caught / MISSED.
+# Prints one line per seed: caught / MISSED.   ONLY=<regex> restricts the seeds (e.g. ONLY='^C1[0-6]').
 WT=${VERIF_REPO:-/tmp/verif_reseed_wt}
 if [ ! -d "$WT" ]; then git -C /repo worktree add -q --detach $WT HEAD || exit 2; MADE=1; fi
 for D in /verif/seeded/*/; do
   SID=$(basename $D)
+  if [ -n "${ONLY:-}" ] && ! [[ $SID =~ $ONLY ]]; then continue; fi
   P=$(python3 -c "import json;print(json.load(open('$D/meta.json'))['property'])")
   git -C $WT checkout -q -- . 
   if ! git -C $WT apply $D/patch.diff 2>/dev/null; then echo "$SID $P patch-does-not-apply"; continue; fi
